@@ -250,6 +250,9 @@ func mapReduceWithPanicChan(source <-chan any, panicChan *onceChan, mapper Mappe
 			return nil, err
 		} else if ok {
 			return v, nil
+		} else if options.ctx.Err() != nil {
+			// 上下文已结束，聚合者的输出被丢弃
+			return nil, context.DeadlineExceeded
 		} else {
 			return nil, ErrReduceNoOutput
 		}
